@@ -91,6 +91,11 @@ claim('C17', 'devx+bfs',
       'All 256 single bytes and all strings of length <= 2 (quick) / <= 3 (thorough) over a 44-symbol alphabet of bytes and multi-byte tokens, plus a length ladder up to 64 KiB, substituted as RelayState and as consumer / logout URL (embedded in an https URL and as the whole URL) at 4 render sites (callback success, callback failure, SSO late-error reply, logout). The page is tokenised with golang.org/x/net/html (shares no code with html/template): tag/attribute skeleton identical to the fixed template, exactly one form, exactly two hidden fields holding the values (NUL / invalid UTF-8 may become U+FFFD), action = URL-normalised consumer URL for http(s)/relative URLs and never a script-capable scheme after browser-style trimming, no script element. Histories: 16 site pairs x earlier writer completing or failing at write 1..4 on one provider.',
       'The SAMLResponse slot is only covered over the base64 the IdP produces; strings outside the alphabet / longer than 3 symbols are only sampled by the ladder. Known finding: CR in RelayState.', '§5 C17')
 
+claim('C18', 'devx',
+      'exhaustive enumeration of all byte strings up to length 5-6 over a 7-byte alphabet through the real codec, and of (field, symbol) placements through the real emitters, judged by three parsers',
+      'A: every byte string of length <= 5 (quick) / <= 6 (thorough) over {00,01,a,<,7F,80,FF} plus zero / incompressible / XML-like content of sizes 2^k and 2^k+-1 up to 1 MiB is sent through DeflateAndBase64 then InflateAndDecode(DEFLATE) and must come back identical; 10 near-miss encoding identifiers must be errors; Marshal results must survive later Marshal calls. B: 6 emission scenarios on the real handlers (Success response POST/Redirect, SSO failure response with storage error text in StatusMessage, LogoutResponse, SOAP response, metadata incl. host-derived issuer) x every outside-influenced string field x 16 legal symbols (recovered exactly by the library decoders) and 9 illegal-character symbols (C0 controls, U+FFFE/FFFF, CESU surrogate, broken UTF-8: element/attribute skeleton equals the all-plain baseline), one field (quick) / two fields (thorough); every emitted document must be one well-formed document for the harness parser and, in one batch, for python3 expat.',
+      'Known finding: CR in RelayState (HTML form field, not the XML message).', '§5 C18')
+
 NOT_YET = {i: 'check not built yet in this revision (planned: see DESIGN.md §5 %s); not claimed until its machinery exists' % i for i in ids}
 
 def main():
